@@ -36,6 +36,7 @@ let parse_step s =
   | 'f' -> SFlag (num (tail s))
   | 'w' -> SWake (num (tail s))
   | 'c' -> SCtx
+  | 'g' -> SDetach (num (tail s))
   | 'j' -> (match String.split_on_char '.' (tail s) with
             | [k; j] -> SJoin (num k, num j)
             | _ -> failwith "bad join")
